@@ -1,4 +1,5 @@
 """C19 — Structured control flow follows its reference semantics."""
+import fractions
 import random
 
 from vlib import basic
@@ -10,7 +11,10 @@ RULE = ('one case = one generated program run through the real Session (NEW, ent
         'loop exits, multi-statement lines, NEXT / NEXT v / NEXT j,i forms), every loop body and subroutine '
         'guarded by a step counter that ENDs the program; (b) mismatch programs (stray NEXT/WEND/RETURN, FOR '
         'without NEXT, WHILE without WEND, undefined line, ON out of range); (c) unstructured random programs '
-        '(jumps anywhere, compared with the Lean mechanism only). non-trivial = at least one loop, call or jump')
+        '(jumps anywhere, compared with the Lean mechanism only). FOR bounds, LET values and ON selectors are also '
+        'fractional constants (+-.4 .5 .6 1.5 2.5 .25 1/3 32767.4 32767.5 ...) on integer counters written I% or, '
+        'under DEFINT J-K, without a sigil: they are converted (CINT) before the direction and the empty-loop test. '
+        'non-trivial = at least one loop, call or jump')
 EXPLANATION = ('theorems (PcbV.Props.C19) on PcbV.Model.MiniBasic: FOR trip count, RETURN resumes after the call '
                'at any depth (stack discipline), ON selection, mismatch errors, Mech refines Spec for compiled '
                'FOR/WHILE nests; correspondence: printed trace + final error of the real interpreter vs the Lean '
@@ -26,6 +30,9 @@ TRUSTED_BASE = ['PcbV.Model.MiniBasic is a hand transcription of interpreter.py 
 ASSUMPTIONS = ['PRINT of an integer value writes its decimal representation']
 
 NAMES = ['I%', 'J%', 'K%', 'A%', 'B%', 'C%', 'Z%']
+# the same variables in a program that starts with DEFINT J-K (integer counters without a sigil)
+NAMES_DEFINT = ['I%', 'J', 'K', 'A%', 'B%', 'C%', 'Z%']
+_names = NAMES
 GUARD = 6
 OPS = {'add': '+', 'sub': '-', 'lt': '<', 'le': '<=', 'eq': '=', 'ne': '<>', 'gt': '>', 'ge': '>='}
 KNOWN_ZERO_STEP = 'zero-step:start<stop:body-runs-once'
@@ -47,7 +54,9 @@ def etext(e, top=True):
     if e[0] == 'n':
         return str(e[1]) if (top or e[1] >= 0) else '(%d)' % e[1]
     if e[0] == 'v':
-        return NAMES[e[1]]
+        return _names[e[1]]
+    if e[0] == 'f':
+        return e[3]
     return '(%s%s%s)' % (etext(e[1], False), OPS[e[0]], etext(e[2], False))
 
 
@@ -56,6 +65,8 @@ def eproto(e):
         return 'n%d' % e[1]
     if e[0] == 'v':
         return 'v%d' % e[1]
+    if e[0] == 'f':
+        return 'f%d/%d' % (e[1], e[2])
     return '%s_%s_%s' % (e[0], eproto(e[1]), eproto(e[2]))
 
 
@@ -68,12 +79,12 @@ def stext(s):
     if k == 'P':
         return 'PRINT %s;' % etext(s[1])
     if k == 'L':
-        return '%s=%s' % (NAMES[s[1]], etext(s[2]))
+        return '%s=%s' % (_names[s[1]], etext(s[2]))
     if k == 'F':
-        t = 'FOR %s=%s TO %s' % (NAMES[s[1]], etext(s[2]), etext(s[3]))
+        t = 'FOR %s=%s TO %s' % (_names[s[1]], etext(s[2]), etext(s[3]))
         return t + (' STEP %s' % etext(s[4]) if s[4] is not None else '')
     if k == 'N':
-        return 'NEXT' + (' ' + ','.join(NAMES[v] for v in s[1]) if s[1] else '')
+        return 'NEXT' + (' ' + ','.join(_names[v] for v in s[1]) if s[1] else '')
     if k == 'W':
         return 'WHILE %s' % etext(s[1])
     if k == 'D':
@@ -137,8 +148,38 @@ def line_text(num, stmts):
     return out
 
 
-def prog_text(lines):
-    return [line_text(n, st) for n, st in lines]
+def prog_text(lines, defint=False):
+    """the BASIC text; with defint the counters J, K carry no sigil and line 1 declares them DEFINT
+    (line 1 is not part of the modelled program: it runs once, before everything, and is no jump target)"""
+    global _names
+    _names = NAMES_DEFINT if defint else NAMES
+    try:
+        text = [line_text(n, st) for n, st in lines]
+    finally:
+        _names = NAMES
+    return (['1 DEFINT J-K'] if defint else []) + text
+
+
+def frac(n, d, text=None):
+    """the constant n/d written as BASIC text (a decimal literal or a division); it stands only where the
+    value is converted to an integer at once (FOR bounds of an integer counter, LET to V%, ON)"""
+    return ('f', n, d, text if text is not None else '(%d/%d)' % (n, d))
+
+
+def cint(x):
+    """CINT: nearest integer, halves away from zero (exact rational arithmetic)"""
+    x = fractions.Fraction(x)
+    q = (2 * abs(x.numerator) + x.denominator) // (2 * x.denominator)
+    return -q if x < 0 else q
+
+
+FRACS = [frac(2, 5, '.4'), frac(-2, 5, '-.4'), frac(1, 2, '.5'), frac(-1, 2, '-.5'), frac(3, 5, '.6'),
+         frac(-3, 5, '-.6'), frac(3, 2, '1.5'), frac(5, 2, '2.5'), frac(-3, 2, '-1.5'), frac(1, 4, '.25'),
+         frac(1, 3), frac(2, 3), frac(-1, 3), frac(7, 2), frac(9, 4, '2.25'), frac(19, 5, '3.8')]
+FRAC_ZERO = [frac(2, 5, '.4'), frac(-2, 5, '-.4'), frac(1, 4, '.25'), frac(1, 3), frac(-1, 3), frac(-1, 4, '-.25')]
+FRAC_LIMIT = [frac(327674, 10, '32767.4'), frac(327675, 10, '32767.5'), frac(-327684, 10, '-32768.4'),
+              frac(-327685, 10, '-32768.5'), frac(80001, 2, '40000.5'), frac(655352, 10, '65535.2'),
+              frac(-65535, 2, '-32767.5')]
 
 
 def prog_proto(lines):
@@ -192,6 +233,8 @@ class Ref(object):
             return e[1]
         if e[0] == 'v':
             return self.env[e[1]]
+        if e[0] == 'f':
+            return fractions.Fraction(e[1], e[2])
         a, b = self.ev(e[1]), self.ev(e[2])
         k = e[0]
         if k == 'add':
@@ -202,7 +245,8 @@ class Ref(object):
         return -1 if r else 0
 
     def int16(self, e):
-        n = self.ev(e)
+        """the value converted to the 16-bit integer type: rounded first, then range-checked"""
+        n = cint(self.ev(e))
         if not in16(n):
             raise _Err(6)
         return n
@@ -265,9 +309,7 @@ class Ref(object):
         elif k == 'GOSUB':
             self.call(n[1])
         elif k == 'ON':
-            x = self.ev(n[1])
-            if not in16(x):
-                raise _Err(6)
+            x = self.int16(n[1])
             if x < 0 or x > 255:
                 raise _Err(5)
             if 1 <= x <= len(n[3]):
@@ -378,6 +420,8 @@ class Gen(object):
     def bounds(self, vars_):
         r = self.rng
         x = r.random()
+        if x < 0.20:
+            return self.frac_bounds()
         if x < 0.45:
             a = r.choice([0, 1, 1, 2, 3, -2, 5])
             n = r.choice([0, 1, 2, 3, 4])
@@ -397,9 +441,37 @@ class Gen(object):
             return r.choice([(big, lit(1), None), (lit(1), big, None), (lit(1), lit(2), big)])
         return self.expr(vars_), self.expr(vars_), (self.atom(vars_) if r.random() < 0.5 else None)
 
+    def frac_bounds(self):
+        """fractional start / stop / step of an integer counter: converted (CINT) before anything else"""
+        r = self.rng
+
+        def small():
+            return lit(r.choice([0, 1, 2, 3, 5, -1, -3]))
+        x = r.random()
+        if x < 0.40:
+            # a step that rounds to zero, in either direction, with start <, =, > stop
+            a = r.choice([lit(1), lit(5), lit(2), frac(3, 2, '1.5'), frac(2, 5, '.4')])
+            b = r.choice([lit(5), lit(1), lit(2), frac(5, 2, '2.5'), frac(-2, 5, '-.4')])
+            return a, b, r.choice(FRAC_ZERO)
+        if x < 0.75:
+            a = r.choice(FRACS + [small()])
+            b = r.choice(FRACS + [small(), small()])
+            c = r.choice(FRACS + [None, lit(1), lit(-1)])
+            return a, b, c
+        # near the limits of the integer type: rounding decides between a value and Overflow
+        k = r.randrange(3)
+        f = r.choice(FRAC_LIMIT)
+        if k == 0:
+            return f, lit(r.choice([32767, -32768, 0])), lit(r.choice([1, -1]))
+        if k == 1:
+            return lit(r.choice([32766, -32767, 0])), f, lit(r.choice([1, -1, 2]))
+        return small(), small(), f
+
     def simple(self, vars_, counters):
         r = self.rng
         x = r.random()
+        if x < 0.04:
+            return ('L', r.choice([3, 4, 5]), r.choice(FRACS + FRAC_LIMIT[:2]))
         if x < 0.45:
             return ('P', self.expr(vars_ + counters) if r.random() < 0.7 else lit(self.mark()))
         if x < 0.85 or not counters:
@@ -532,6 +604,7 @@ class Gen(object):
                 nodes.append(('GOSUB', k) if k else self.simple(vars_, counters))
             elif x < 0.92:
                 e = r.choice([self.atom(vars_ + counters), lit(r.choice([0, 1, 2, 3, 4, 5])),
+                              r.choice(FRACS + FRAC_ZERO + [frac(511, 2, '255.5'), frac(1021, 4, '255.25')]),
                               lit(r.choice([-1, 255, 256, 300, -32768, 32767])),
                               ('add', lit(32767), lit(r.choice([1, 2])))])
                 if ahead and r.random() < 0.5:
@@ -822,8 +895,10 @@ def gen_random(pseed):
         if x < 0.36:
             return ('L', rng.choice(vs), ex())
         if x < 0.50:
-            c = rng.choice([None, None, lit(rng.choice([1, 2, -1, 0, 3]))])
-            return ('F', rng.choice(cnt), lit(rng.choice([0, 1, 2, 3])), lit(rng.choice([0, 1, 2, 3, 4])), c)
+            c = rng.choice([None, None, lit(rng.choice([1, 2, -1, 0, 3])), rng.choice(FRACS + FRAC_ZERO)])
+            a = lit(rng.choice([0, 1, 2, 3])) if rng.random() < 0.85 else rng.choice(FRACS)
+            b = lit(rng.choice([0, 1, 2, 3, 4])) if rng.random() < 0.85 else rng.choice(FRACS + FRAC_LIMIT)
+            return ('F', rng.choice(cnt), a, b, c)
         if x < 0.56:
             return ('W', cond())
         if x < 0.62:
@@ -998,6 +1073,27 @@ def fixed_programs():
 
 def boundary_loops():
     out = []
+    h = fractions.Fraction(1, 2)
+    fr = [(1, 5, '-.4'), (1, 5, '.4'), (5, 1, '-.4'), (5, 1, '.4'), (2, 2, '.25'), (2, 2, '-.25'), (1, 5, '1/3'),
+          (5, 1, '-1/3'), ('.5', '2.5', '1.5'), ('.6', '3.4', '.5'), ('2.5', '.5', '-.5'), ('2.5', '.5', '-.6'),
+          ('.4', '-.4', 1), ('-.4', '.4', -1), ('.5', '-.5', 1), ('32767.4', 32767, 1), ('32766.5', 32767, 1),
+          (32766, '32767.5', 1), ('-32768.4', -32768, -1), ('-32768.5', 0, 1), (1, 3, '40000.5'),
+          (1, 4, '1.5'), (1, 4, '2.5'), (4, 1, '-1.5'), (4, 1, '-2.5'), (1, 5, '.5'), (5, 1, '-.5')]
+
+    def fl(t):
+        if isinstance(t, int):
+            return lit(t)
+        q = fractions.Fraction(t)
+        return frac(q.numerator, q.denominator, t if '/' not in t else '(%s)' % t)
+    for a, b, c in fr:
+        for form, suffix in (('named', ''), ('bare', ''), ('named', '/defint')):
+            v = 1 if suffix else 0
+            main = [('FOR', v, fl(a), fl(b), fl(c),
+                     [('L', GUARD, ('add', var(GUARD), lit(1))),
+                      ('IF', ('gt', var(GUARD), lit(6)), [('P', lit(-7)), ('END',)], None), ('P', var(v))], form),
+                    ('P', lit(77)), ('P', var(v)), ('END',)]
+            out.append(('loop %s,%s,%s %s%s' % (a, b, c, form, suffix), main, {},
+                        layout(random.Random(len(out)), main, {})))
     for a, b, c in [(1, 3, 1), (3, 1, -1), (1, 1, 1), (1, 0, 1), (0, 1, -1), (32765, 32767, 1), (32766, 32767, 2),
                     (-32766, -32768, -1), (-32767, -32768, -2), (32767, 32767, 1), (-32768, -32768, -1),
                     (1, 10, 3), (10, 1, -3), (1, 10, 32767), (0, -32768, -32768), (32767, 0, 1), (-32768, 0, -1),
@@ -1032,10 +1128,10 @@ def oracle_check(ctx, name, main, subs, lines, impl_out, case):
         ctx.count('known:zero-step')
         ctx.fail(KNOWN_ZERO_STEP, case,
                  'FOR with STEP 0 and start < stop leaves the loop after one pass (the counter has not passed the '
-                 'end): %s ; got %s, reference %s' % (' / '.join(prog_text(lines)), impl_out, exp))
+                 'end): %s ; got %s, reference %s' % (' / '.join(prog_text(lines, case.get('defint', False))), impl_out, exp))
         return
     ctx.fail('%s' % name, case, 'program %s : implementation %s, reference semantics %s'
-             % (' / '.join(prog_text(lines)), impl_out, exp))
+             % (' / '.join(prog_text(lines, case.get('defint', False))), impl_out, exp))
 
 
 def classify(main, subs, ctx):
@@ -1066,22 +1162,39 @@ def classify(main, subs, ctx):
         ctx.count('node:' + k)
 
 
+def count_fracs(lines, ctx):
+    for _, st in lines:
+        for x in st:
+            if x[0] == 'F':
+                fr = [e for e in x[2:5] if e is not None and e[0] == 'f']
+                if fr:
+                    ctx.count('for:fractional-bound')
+                if x[4] is not None and x[4][0] == 'f':
+                    ctx.count('for:fractional-step->%s' % ('zero' if cint(fractions.Fraction(x[4][1], x[4][2])) == 0
+                                                            else 'nonzero'))
+                if any(not in16(cint(fractions.Fraction(e[1], e[2]))) for e in fr):
+                    ctx.count('for:fractional-bound-overflows')
+            elif x[0] in ('L', 'O') and x[2][0] == 'f':
+                ctx.count('fractional:' + ('let' if x[0] == 'L' else 'on'))
+
+
 def run_batch(ctx, impl, progs):
     """progs: (name, main|None, subs, lines, case)"""
     outs, protos, cases = [], [], []
     for name, main, subs, lines, case in progs:
-        out = impl.run(prog_text(lines))
+        out = impl.run(prog_text(lines, case.get('defint', False)))
         outs.append(out)
         protos.append('run 1 %d %s' % (FUEL, prog_proto(lines)))
         cases.append(case)
         ctx.case(('prog', name))
+        count_fracs(lines, ctx)
         st = out.split()[-1] if out.startswith('ok ') else out.split()[0]
         ctx.count('status:' + st)
         if main is not None:
             classify(main, subs, ctx)
             oracle_check(ctx, name, main, subs, lines, out, case)
         elif not out.startswith('ok '):
-            ctx.fail(name, case, 'program %s : %s' % (' / '.join(prog_text(lines)), out))
+            ctx.fail(name, case, 'program %s : %s' % (' / '.join(prog_text(lines, case.get('defint', False))), out))
     ctx.compare(cases, outs, protos, label='trace')
     return outs
 
@@ -1104,7 +1217,8 @@ def run(ctx):
     try:
         progs = []
         for name, main, subs, lines in fixed_programs() + boundary_loops():
-            progs.append((name, main, subs, lines, {'kind': 'fixed', 'name': name}))
+            progs.append((name, main, subs, lines,
+                          {'kind': 'fixed', 'name': name, 'defint': name.endswith('/defint')}))
         run_batch(ctx, impl, progs)
         ctx.sample({'program': prog_text(progs[0][3]), 'impl': impl.run(prog_text(progs[0][3]))})
         n_struct, n_mis, n_rand = (900, 250, 800) if ctx.quick else (9000, 2500, 8000)
@@ -1117,7 +1231,10 @@ def run(ctx):
                 if sum(len(st) for _, st in lines) > 160 or any(len(t) > 240 for t in prog_text(lines)):
                     ctx.count('skipped:too-long')
                     continue
-                batch.append(('%s:%d' % (kind, pseed), main, subs, lines, {'kind': kind, 'pseed': pseed}))
+                batch.append(('%s:%d' % (kind, pseed), main, subs, lines,
+                              {'kind': kind, 'pseed': pseed, 'defint': pseed % 3 == 0}))
+                if pseed % 3 == 0:
+                    ctx.count('naming:defint')
                 ctx.count('kind:' + kind)
                 if len(batch) >= 200:
                     outs = run_batch(ctx, impl, batch)
@@ -1136,7 +1253,7 @@ def replay(ctx, payload):
     sub = Ctx2(ctx)
     try:
         if case.get('kind') == 'fixed':
-            progs = [(n, m, s, l, {'kind': 'fixed', 'name': n}) for n, m, s, l in fixed_programs() + boundary_loops()
+            progs = [(n, m, s, l, case) for n, m, s, l in fixed_programs() + boundary_loops()
                      if n == case.get('name')]
         else:
             main, subs, lines = make(case['kind'], case['pseed'])
